@@ -987,6 +987,424 @@ void check_consistency(gen_t& g, const ctx_t& x, const std::string& name, const 
     }
 }
 
+
+// =====================================================================================================================
+// extension oracles (independent of the Coq model): top-k of the k-best table for every k, k-split tables, decision trees
+// of any depth (structure, traversal, greedy fit = stump of the node's samples), AIC / AICc / BIC of every learner
+// =====================================================================================================================
+ld crit_ld(wlearner_criterion c, ld rss, ld k, ld n)
+{
+    switch (c)
+    {
+    case wlearner_criterion::aic: return 2 * k + n * std::log(rss) - n * std::log(n);
+    case wlearner_criterion::aicc: return (2 * k + n * std::log(rss) - n * std::log(n)) + 2 * (k * k + k) / (n - k - 1);
+    case wlearner_criterion::bic: return k * std::log(n) + n * std::log(rss / n);
+    default: return rss;
+    }
+}
+
+// the criterion of an RSS known within +-dr: an interval (the criteria are increasing in the RSS)
+struct interval_t
+{
+    ld   lo{0}, hi{0};
+    bool finite{false};
+};
+
+interval_t crit_interval(wlearner_criterion c, ld rss, ld dr, ld floor, ld k, ld n)
+{
+    interval_t it;
+    it.lo     = crit_ld(c, std::max(floor, rss - dr), k, n);
+    it.hi     = crit_ld(c, std::max(floor, rss + dr), k, n);
+    it.finite = std::isfinite(static_cast<double>(it.lo)) && std::isfinite(static_cast<double>(it.hi));
+    return it;
+}
+
+struct minint_t
+{
+    ld   lo{0}, hi{0};
+    bool any{false};
+    void take(const interval_t& it)
+    {
+        if (!it.finite) return;
+        if (!any || it.lo < lo) lo = it.lo;
+        if (!any || it.hi < hi) hi = it.hi;
+        any = true;
+    }
+    bool contains(ld s) const
+    {
+        const ld eps = 1e-9L * (1 + std::fabs(s));
+        return any && s >= lo - eps && s <= hi + eps;
+    }
+};
+
+// per label set of one categorical feature: RSS when predicted by its mean / by zero (two-pass sums, by definition)
+struct keystat_t
+{
+    std::vector<long long> keys;
+    std::vector<ld>        a, b; // a: predicted by the mean, b: predicted by zero
+    ld                     miss{0};
+};
+
+keystat_t keystat(const gathered_t& g, size_t f)
+{
+    keystat_t           ks;
+    const auto&         k = g.key[f];
+    std::set<long long> keys;
+    for (auto v : k)
+        if (v >= 0) keys.insert(v);
+    std::vector<uint8_t> in(k.size());
+    for (size_t i = 0; i < k.size(); ++i) in[i] = k[i] < 0;
+    ks.miss = missing_rss(g, in);
+    for (auto key : keys)
+    {
+        for (size_t i = 0; i < k.size(); ++i) in[i] = k[i] == key;
+        ks.keys.push_back(key);
+        ks.a.push_back(rss_mean(g, in));
+        ks.b.push_back(rss_zero(g, in));
+    }
+    return ks;
+}
+
+// minimum over ALL subsets of exactly k label sets of the RSS of the table that predicts the mean on the subset, zero elsewhere
+ld brute_topk(const keystat_t& ks, size_t k)
+{
+    const auto nb   = ks.keys.size();
+    ld         best = -1;
+    for (unsigned mask = 0; mask < (1U << nb); ++mask)
+    {
+        if (static_cast<size_t>(__builtin_popcount(mask)) != k) continue;
+        ld rss = ks.miss;
+        for (size_t j = 0; j < nb; ++j) rss += ((mask >> j) & 1U) ? ks.a[j] : ks.b[j];
+        if (best < 0 || rss < best) best = rss;
+    }
+    return best;
+}
+
+// RSS of a fitted table evaluated with the harness' own look-up (linear search of the stored hashes; predict() of the k-best
+// table misses stored label sets, see F2)
+ld table_rss(const ctx_t& x, const table_wlearner_t& t, bool& ok)
+{
+    const auto&  gg = x.g;
+    const auto   f  = static_cast<size_t>(t.feature());
+    ld           rss = 0;
+    const auto   no  = static_cast<tensor_size_t>(gg.no);
+    ok               = f < gg.kind.size() && (gg.kind[f] == k_sclass || gg.kind[f] == k_mclass);
+    if (!ok) return 0;
+    for (tensor_size_t i = 0; i < gg.n; ++i)
+    {
+        tensor_size_t row = -1;
+        const auto&   h   = gg.hash[f][static_cast<size_t>(i)];
+        if (h != "-1")
+        {
+            for (tensor_size_t j = 0; j < t.hashes().size(); ++j)
+                if (std::to_string(static_cast<unsigned long long>(t.hashes()(j))) == h) row = t.hash2tables()(j);
+        }
+        for (tensor_size_t o = 0; o < no; ++o)
+        {
+            const ld p = row >= 0 ? static_cast<ld>(t.tables().data()[row * no + o]) : 0.0L;
+            const ld d = gg.r[static_cast<size_t>(i)][static_cast<size_t>(o)] - p;
+            rss += d * d;
+        }
+    }
+    return rss;
+}
+
+long ext_topk_checks = 0, ext_crit_checks = 0, ext_ksplit_checks = 0, ext_tree_checks = 0, ext_treefit_checks = 0, ext_topk_partial = 0;
+
+void ext_check_tables(const ctx_t& x, const std::string& name, wlearner_criterion crit, scalar_t score, const wlearner_t& w, bool nofit)
+{
+    const auto& gg  = x.g;
+    const auto  tag = x.id + " " + name + " " + crit_name(crit);
+    const ld    dr  = 1e-9L * gg.sumr2 + 1e-15L;
+    const ld    fl  = x.floor;
+    const ld    n   = static_cast<ld>(gg.n);
+    const ld    no  = static_cast<ld>(gg.no);
+    const bool  is_kbest = name == "kbest-table", is_ksplit = name == "ksplit-table", is_dense = name == "dense-table", is_dstep = name == "dstep-table";
+    if (!is_kbest && !is_ksplit && !is_dense && !is_dstep) return;
+
+    // the criterion over all candidates of the class (dense: all label sets; dstep: one; k-best: the best k for every k)
+    if (!is_ksplit)
+    {
+        minint_t best;
+        bool     complete = true;
+        for (size_t f = 0; f < gg.kind.size(); ++f)
+        {
+            if (gg.kind[f] != k_sclass && gg.kind[f] != k_mclass) continue;
+            const auto ks = keystat(gg, f);
+            const auto nb = ks.keys.size();
+            if (nb > 12U) { complete = false; continue; }
+            if (is_dense) best.take(crit_interval(crit, brute_topk(ks, nb), dr, fl, static_cast<ld>(nb) * no, n));
+            else if (is_dstep) { if (nb >= 1U) best.take(crit_interval(crit, brute_topk(ks, 1U), dr, fl, no, n)); }
+            else for (size_t k = 1; k <= nb; ++k) best.take(crit_interval(crit, brute_topk(ks, k), dr, fl, static_cast<ld>(k) * no, n));
+        }
+        if (complete)
+        {
+            ext_crit_checks++;
+            if (nofit ? best.any : !best.contains(score))
+            {
+                fail("ext-criterion", tag,
+                     std::string(nofit ? "no fit" : "score=" + vh::hexf(score)) + " but the minimum of the criterion over all label-set subsets is in [" +
+                         vh::hexf(static_cast<double>(best.lo)) + "," + vh::hexf(static_cast<double>(best.hi)) + "]" + (best.any ? "" : " (empty)") + " " + (nofit ? std::string("-") : wstr(w)));
+            }
+        }
+        else ext_topk_partial++;
+    }
+    if (nofit) return;
+    const auto* t = dynamic_cast<const table_wlearner_t*>(&w);
+    if (t == nullptr) return;
+    bool      ok  = false;
+    const ld  rss = table_rss(x, *t, ok);
+    if (!ok)
+    {
+        fail("ext-topk", tag, "the fitted feature is not categorical " + wstr(w));
+        return;
+    }
+    const auto f  = static_cast<size_t>(t->feature());
+    const auto ks = keystat(gg, f);
+    const auto k  = static_cast<size_t>(t->tables().size<0>());
+    // the score is the criterion of the RSS of the stored table with k = tables * outputs parameters
+    {
+        ext_crit_checks++;
+        minint_t own;
+        own.take(crit_interval(crit, rss, dr, fl, static_cast<ld>(k) * no, n));
+        if (!own.contains(score))
+        {
+            fail("ext-criterion", tag,
+                 "score=" + vh::hexf(score) + " but the criterion of the stored table (RSS " + vh::hexf(static_cast<double>(rss)) + ", k=" +
+                     std::to_string(k * static_cast<size_t>(gg.no)) + ", n=" + std::to_string(gg.n) + ") is in [" + vh::hexf(static_cast<double>(own.lo)) + "," +
+                     vh::hexf(static_cast<double>(own.hi)) + "] " + wstr(w));
+        }
+    }
+    if (is_kbest && ks.keys.size() <= 12U && k <= ks.keys.size())
+    {
+        // top-k: no table on k label sets of the fitted feature has a smaller RSS (all subsets)
+        ext_topk_checks++;
+        const ld best = brute_topk(ks, k);
+        if (rss > best + dr || static_cast<tensor_size_t>(k) != t->hashes().size())
+        {
+            fail("ext-topk", tag,
+                 "RSS of the stored table=" + vh::hexf(static_cast<double>(rss)) + " > best table on " + std::to_string(k) + " label sets=" +
+                     vh::hexf(static_cast<double>(best)) + " " + wstr(w));
+        }
+    }
+    if (is_ksplit)
+    {
+        ext_ksplit_checks++;
+        const auto  ng = t->tables().size<0>();
+        const auto& hm = t->hash2tables();
+        std::string why;
+        if (hm.size() != t->hashes().size() || static_cast<size_t>(hm.size()) != ks.keys.size()) why = "one group per seen label set expected";
+        std::vector<long> cnt(static_cast<size_t>(ng), 0);
+        for (tensor_size_t j = 0; why.empty() && j < hm.size(); ++j)
+        {
+            if (hm(j) < 0 || hm(j) >= ng) why = "group id out of range";
+            else cnt[static_cast<size_t>(hm(j))]++;
+        }
+        for (tensor_size_t gidx = 0; why.empty() && gidx < ng; ++gidx)
+            if (cnt[static_cast<size_t>(gidx)] == 0) why = "empty group " + std::to_string(gidx);
+        // every table is the mean of the residuals of the samples of its group
+        for (tensor_size_t gidx = 0; why.empty() && gidx < ng; ++gidx)
+        {
+            for (int o = 0; o < gg.no && why.empty(); ++o)
+            {
+                ld sum = 0, c = 0, mag = 0;
+                for (tensor_size_t i = 0; i < gg.n; ++i)
+                {
+                    const auto& h = gg.hash[f][static_cast<size_t>(i)];
+                    if (h == "-1") continue;
+                    for (tensor_size_t j = 0; j < t->hashes().size(); ++j)
+                        if (hm(j) == gidx && std::to_string(static_cast<unsigned long long>(t->hashes()(j))) == h)
+                        {
+                            sum += gg.r[static_cast<size_t>(i)][static_cast<size_t>(o)];
+                            mag += std::fabs(gg.r[static_cast<size_t>(i)][static_cast<size_t>(o)]);
+                            c += 1;
+                        }
+                }
+                const ld m = c > 0 ? sum / c : 0;
+                if (std::fabs(m - static_cast<ld>(t->tables().data()[gidx * gg.no + o])) > 1e-12L * (mag / std::max<ld>(c, 1) + 1e-300L))
+                    why = "table " + std::to_string(gidx) + " output " + std::to_string(o) + " is not the mean of its group (" + vh::hexf(static_cast<double>(m)) + ")";
+            }
+        }
+        if (why.empty() && crit == wlearner_criterion::rss)
+        {
+            const auto b = brute_dense(gg, true);
+            if (!b.any || std::fabs(static_cast<ld>(score) - std::max(b.rss, fl)) > dr) why = "rss score differs from the dense optimum " + vh::hexf(static_cast<double>(b.rss));
+        }
+        if (!why.empty()) fail("ext-ksplit", tag, why + " " + wstr(w));
+    }
+}
+
+// criteria of the scalar learners with a fixed number of parameters: the minimiser is the RSS minimiser
+void ext_check_scalar_criterion(const ctx_t& x, const std::string& name, wlearner_criterion crit, scalar_t score, const wlearner_t& w, bool nofit)
+{
+    if (crit == wlearner_criterion::rss) return;
+    const auto& gg  = x.g;
+    const auto  tag = x.id + " " + name + " " + crit_name(crit);
+    const ld    dr  = 1e-9L * gg.sumr2 + 1e-15L;
+    const ld    n   = static_cast<ld>(gg.n);
+    const ld    no  = static_cast<ld>(gg.no);
+    best_t      b;
+    ld          k = 0;
+    if (name == "stump") { b = brute_stump(gg); k = 2 * no + 1; }
+    else if (name == "affine") { b = brute_affine(gg); k = 2 * no; }
+    else return;
+    ext_crit_checks++;
+    minint_t best;
+    if (b.any) best.take(crit_interval(crit, b.rss, dr, x.floor, k, n));
+    if (nofit ? best.any : !best.contains(score))
+    {
+        fail("ext-criterion", tag,
+             std::string(nofit ? "no fit" : "score=" + vh::hexf(score)) + " but the criterion of the brute-force RSS optimum (" + vh::hexf(static_cast<double>(b.rss)) +
+                 ", k=" + std::to_string(static_cast<long>(k)) + ", n=" + std::to_string(gg.n) + ") is in [" + vh::hexf(static_cast<double>(best.lo)) + "," +
+                 vh::hexf(static_cast<double>(best.hi)) + "] " + (nofit ? std::string("-") : wstr(w)));
+    }
+}
+
+// decision tree: structure of the node table and the harness' own traversal against split() / predict() on ALL samples
+void ext_check_tree(const ctx_t& x, const std::string& name, const char* crit, const dtree_wlearner_t& w)
+{
+    const auto& nodes = w.nodes();
+    const auto  nt    = w.tables().size<0>();
+    const auto  tag   = x.id + " " + name + " " + crit;
+    const auto  len   = static_cast<long>(nodes.size());
+    ext_tree_checks++;
+    std::string why;
+    std::vector<int> used(static_cast<size_t>(std::max<tensor_size_t>(nt, 0)), 0);
+    if (len < 2 || len % 2 != 0) why = "odd or empty node table";
+    for (long p = 0; why.empty() && p + 1 < len; p += 2)
+    {
+        const auto& a = nodes[static_cast<size_t>(p)];
+        const auto& b = nodes[static_cast<size_t>(p + 1)];
+        if (a.m_feature != b.m_feature || a.m_threshold != b.m_threshold) why = "pair " + std::to_string(p) + " does not share feature and threshold";
+        else if (a.m_next == 0U)
+        {
+            if (b.m_next != 0U || a.m_table < 0 || b.m_table != a.m_table + 1 || b.m_table >= nt) why = "terminal pair " + std::to_string(p) + " has bad tables";
+            else { used[static_cast<size_t>(a.m_table)]++; used[static_cast<size_t>(b.m_table)]++; }
+        }
+        else
+        {
+            for (const auto* e : {&a, &b})
+            {
+                const auto nx = static_cast<long>(e->m_next);
+                if (nx <= p + 1 || nx + 1 >= len || nx % 2 != 0) why = "split pair " + std::to_string(p) + " does not point forward to a pair";
+            }
+        }
+    }
+    for (size_t i = 0; why.empty() && i < used.size(); ++i)
+        if (used[i] != 1) why = "table " + std::to_string(i) + " belongs to " + std::to_string(used[i]) + " leaves";
+    if (!why.empty())
+    {
+        fail("ext-tree-structure", tag, why + " " + wstr(w));
+        return;
+    }
+    // own traversal of every sample of the dataset (missing values included)
+    const auto& dataset = *x.dataset;
+    const auto  all     = arange(0, dataset.samples());
+    const auto  cluster = w.split(dataset, all);
+    const auto  preds   = w.predict(dataset, all);
+    const auto  no      = static_cast<tensor_size_t>(x.g.no);
+    for (tensor_size_t s = 0; s < dataset.samples(); ++s)
+    {
+        long          p = 0;
+        tensor_size_t leaf = -1;
+        std::string   path;
+        for (long steps = 0; steps <= len; ++steps)
+        {
+            const auto& nd = nodes[static_cast<size_t>(p)];
+            const auto& ft = x.c->feats[static_cast<size_t>(x.dfeat[static_cast<size_t>(nd.m_feature)])];
+            path += std::to_string(p) + ">";
+            if (ft.present[static_cast<size_t>(s)] == 0U) break; // dropped at the first missing feature on the path
+            const auto side = ft.sval[static_cast<size_t>(s)] < nd.m_threshold ? 0 : 1;
+            if (nd.m_next == 0U)
+            {
+                leaf = nd.m_table + side;
+                break;
+            }
+            p = static_cast<long>(nodes[static_cast<size_t>(p + side)].m_next);
+        }
+        bool same = cluster.group(s) == leaf;
+        for (tensor_size_t o = 0; same && o < no; ++o)
+            same = preds.data()[s * no + o] == (leaf >= 0 ? w.tables().data()[leaf * no + o] : 0.0);
+        if (!same)
+        {
+            fail("ext-tree-walk", tag,
+                 "sample " + std::to_string(s) + " path " + path + " own leaf=" + std::to_string(leaf) + " split()=" + std::to_string(cluster.group(s)) +
+                     " pred=" + hexs(preds.data() + s * no, no) + " " + wstr(w));
+            break;
+        }
+    }
+}
+
+// the greedy fit behind a one-thread pool (deterministic ties): every pair is the stump fitted on the samples that reach it, a pair
+// is terminal exactly when the source's test says so, leaf tables are the stump's tables, the score is the sum over the leaves
+bool ext_verify_subtree(const ctx_t& x, const dtree_wlearner_t& w, size_t p, const indices_t& samples, int depth, int max_depth, tensor_size_t min_size,
+                        wlearner_criterion crit, ld& score, std::string& why)
+{
+    const auto& nodes = w.nodes();
+    auto        st    = make_learner("stump", crit, 1, 5);
+    const auto  sc    = st->fit(*x.dataset1, samples, x.grads);
+    if (sc == wlearner_t::no_fit_score() || p + 1 >= nodes.size())
+    {
+        why = "pair " + std::to_string(p) + ": no stump on its samples although the tree was fitted";
+        return false;
+    }
+    const auto* ps = dynamic_cast<const stump_wlearner_t*>(st.get());
+    if (nodes[p].m_feature != ps->feature() || nodes[p].m_threshold != ps->threshold())
+    {
+        why = "pair " + std::to_string(p) + " is not the stump of its " + std::to_string(samples.size()) + " samples (" + wstr(*st) + ")";
+        return false;
+    }
+    const bool terminal = samples.size() < min_size || depth + 1 >= max_depth;
+    if (terminal != (nodes[p].m_next == 0U))
+    {
+        why = "pair " + std::to_string(p) + " terminal=" + std::to_string(nodes[p].m_next == 0U) + " but size=" + std::to_string(samples.size()) + " min=" +
+              std::to_string(min_size) + " depth=" + std::to_string(depth);
+        return false;
+    }
+    if (terminal)
+    {
+        const auto no = static_cast<tensor_size_t>(x.g.no);
+        for (tensor_size_t gidx = 0; gidx < 2; ++gidx)
+            for (tensor_size_t o = 0; o < no; ++o)
+                if (w.tables().data()[(nodes[p].m_table + gidx) * no + o] != ps->tables().data()[gidx * no + o])
+                {
+                    why = "leaf tables of pair " + std::to_string(p) + " differ from the stump's";
+                    return false;
+                }
+        score += sc;
+        return true;
+    }
+    const auto cluster = ps->split(*x.dataset1, samples);
+    for (tensor_size_t gidx = 0; gidx < 2; ++gidx)
+    {
+        if (!ext_verify_subtree(x, w, nodes[p + static_cast<size_t>(gidx)].m_next, cluster.indices(gidx), depth + 1, max_depth, min_size, crit, score, why)) return false;
+    }
+    return true;
+}
+
+void ext_check_tree_fit(gen_t& g, const ctx_t& x, wlearner_criterion crit)
+{
+    const auto depth     = static_cast<int>(g.rng.range(2, 4));
+    const auto min_split = static_cast<int>(g.rng.range(1, 10));
+    auto       w         = make_learner("dtree", crit, depth, min_split);
+    const auto score     = w->fit(*x.dataset1, x.samples, x.grads);
+    if (score == wlearner_t::no_fit_score()) return;
+    const auto* tw = dynamic_cast<const dtree_wlearner_t*>(w.get());
+    ext_treefit_checks++;
+    const auto  tag      = x.id + " dtree-fit " + crit_name(crit);
+    const auto  min_size = std::min<tensor_size_t>(10, x.dataset1->samples() * min_split / 100);
+    ld          sum      = 0;
+    std::string why;
+    // the sample list handed to the children is cluster.indices(): sorted and duplicate-free, as in do_fit
+    if (!ext_verify_subtree(x, *tw, 0U, x.samples, 0, depth, min_size, crit, sum, why) ||
+        std::fabs(sum - static_cast<ld>(score)) > 1e-12L * (std::fabs(sum) + 1))
+    {
+        if (why.empty()) why = "score " + vh::hexf(score) + " is not the sum of the leaf stump scores " + vh::hexf(static_cast<double>(sum));
+        fail("ext-tree-fit", tag, why + " depth=" + std::to_string(depth) + " min_split=" + std::to_string(min_split) + " " + wstr(*w));
+    }
+    ext_check_tree(x, "dtree-fit", crit_name(crit), *tw);
+}
+
 void run_case(uint64_t seed, long icase, bool thorough)
 {
     gen_t       g(seed);
@@ -1192,6 +1610,10 @@ void run_case(uint64_t seed, long icase, bool thorough)
                 fail("finite", tag, "score " + vh::hexf(score));
                 continue;
             }
+            ext_check_tables(x, name, crit, score, *w, nofit);
+            ext_check_scalar_criterion(x, name, crit, score, *w, nofit);
+            if (!nofit)
+                if (const auto* tw = dynamic_cast<const dtree_wlearner_t*>(w.get())) ext_check_tree(x, name, crit_name(crit), *tw);
             if (name == "stump")
             {
                 stump_score[static_cast<int>(crit)] = score;
@@ -1244,7 +1666,7 @@ void run_case(uint64_t seed, long icase, bool thorough)
             if (nofit) continue;
 
             // the predictions reproduce the score (RSS criterion)
-            if (crit == wlearner_criterion::rss && name != "dtree")
+            if (crit == wlearner_criterion::rss)
             {
                 const auto p   = w->predict(dataset, samples);
                 ld         rss = 0;
@@ -1258,7 +1680,7 @@ void run_case(uint64_t seed, long icase, bool thorough)
                 if (std::fabs(static_cast<ld>(score) - clampf(rss)) > tol)
                 {
                     const auto why = "score=" + vh::hexf(score) + " RSS of the predictions=" + vh::hexf(static_cast<double>(rss)) + " " + wstr(*w);
-                    if (name == "kbest-table" || name == "ksplit-table") obs("reproduce-" + name, tag, why);
+                    if (name == "kbest-table" || name == "ksplit-table" || name == "dtree") obs("reproduce-" + name, tag, why);
                     else fail("reproduce", tag, why);
                 }
             }
@@ -1316,6 +1738,43 @@ void run_case(uint64_t seed, long icase, bool thorough)
         if (!ok)
         {
             fail("depth1", tag, "tree differs from the stump: " + wstr(*w) + " vs " + wstr(*st));
+        }
+    }
+
+    // ---- extension: the greedy tree fit behind a one-thread pool; the sample count of the hinge criterion ---------------------
+    ext_check_tree_fit(g, x, wlearner_criterion::rss);
+    if (extra != wlearner_criterion::rss && g.coin(50)) ext_check_tree_fit(g, x, extra);
+    {
+        // hinge, AIC / AICc / BIC: make_score gets n = samples on the hinge side + missing ones, not all selected samples
+        auto       w     = make_learner("hinge", extra, 1, 5);
+        const auto score = w->fit(dataset, samples, x.grads);
+        if (score != wlearner_t::no_fit_score())
+        {
+            const auto* ph = dynamic_cast<const hinge_wlearner_t*>(w.get());
+            const auto  p  = w->predict(dataset, samples);
+            ld          rss = 0, side = 0, miss = 0;
+            const auto  cf = x.dfeat[static_cast<size_t>(ph->feature())];
+            for (tensor_size_t i = 0; i < n; ++i)
+            {
+                for (int o = 0; o < c.outs; ++o)
+                {
+                    const ld d = gg.r[static_cast<size_t>(i)][static_cast<size_t>(o)] - static_cast<ld>(p.data()[i * c.outs + o]);
+                    rss += d * d;
+                }
+                const auto us = static_cast<size_t>(samples(i));
+                if (c.feats[static_cast<size_t>(cf)].present[us] == 0U) miss += 1;
+                else if ((c.feats[static_cast<size_t>(cf)].sval[us] < ph->threshold()) == (ph->hinge() == hinge_type::left)) side += 1;
+            }
+            const ld   k = static_cast<ld>(c.outs) + 1;
+            minint_t   all, part;
+            all.take(crit_interval(extra, rss, tol, x.floor, k, static_cast<ld>(n)));
+            part.take(crit_interval(extra, rss, tol, x.floor, k, side + miss));
+            if (!all.contains(score) && part.contains(score))
+                obs("hinge-criterion-n", x.id + " hinge " + crit_name(extra),
+                    "score=" + vh::hexf(score) + " is the criterion with n=" + std::to_string(static_cast<long>(side + miss)) + " (hinge side + missing), not n=" +
+                        std::to_string(n) + " (RSS over all samples " + vh::hexf(static_cast<double>(rss)) + ") " + wstr(*w));
+            else if (!all.contains(score) && !part.contains(score) && side + miss != static_cast<ld>(n))
+                obs("hinge-criterion-other", x.id + " hinge " + crit_name(extra), "score=" + vh::hexf(score) + " " + wstr(*w));
         }
     }
 
@@ -1490,9 +1949,10 @@ int main(int argc, char** argv)
     };
     std::printf("DONE cases=%ld fits=%ld nofits=%ld fails=%ld obs=%ld optimal_checks=%ld reproduce_checks=%ld consistency_checks=%ld "
                 "dstep_excluded=%ld scale_checks=%ld merges=%ld merged_pairs=%ld depth1_checks=%ld thread_checks=%ld missing_samples=%ld tie_columns=%ld "
-                "learners=%s kinds=%s subsets=%s nhist=%s obs_kinds=%s\n",
+                "ext_topk=%ld ext_crit=%ld ext_ksplit=%ld ext_tree=%ld ext_treefit=%ld ext_topk_partial=%ld learners=%s kinds=%s subsets=%s nhist=%s obs_kinds=%s\n",
                 cnt.cases, cnt.fits, cnt.nofits, cnt.fails, cnt.obs, cnt.optimal_checks, cnt.reproduce_checks, cnt.consistency_checks,
                 cnt.dstep_excluded, cnt.scale_checks, cnt.merges, cnt.merged_pairs, cnt.depth1_checks, cnt.thread_checks, cnt.missing_samples, cnt.tie_cases,
+                ext_topk_checks, ext_crit_checks, ext_ksplit_checks, ext_tree_checks, ext_treefit_checks, ext_topk_partial,
                 hist(cnt.learners).c_str(), hist(cnt.kinds).c_str(), hist(cnt.subsets).c_str(), hist(cnt.nhist).c_str(),
                 hist(cnt.obs_kinds).c_str());
     return 0;
